@@ -139,6 +139,9 @@ def runCalls (ext : WExt) (srcs : List (Archive × Dev)) (calls : List String) (
   runCallsF ext srcs none (fun _ => "") calls s d acc
 
 def opWrite (op : String) (a : Args) : Option String := do
+  -- `write.big`: appending to a base with more than 65535 entries (about 5 MB) — an implementation-side
+  -- observation (strict parser + append oracle); the list-based model needs minutes on such a base
+  if op == "write.big" then some "oracle-only" else
   if op != "write.run" then none else
   let calls := ((a.get? "calls").getD "").splitOn ";"
   let ext := mkWExt (parseComp ((a.get? "comp").getD "-")) (parseZc ((a.get? "zc").getD "-"))
